@@ -280,18 +280,25 @@ class ConditionValueExpression(ParentChainMixin):
 identifier = Word(alphanums + "_-")
 identifier.set_parse_action(ConditionIdentifier.from_parsed)
 
-quantifier = Keyword("1") | Keyword("any") | Keyword("all")
+# Identifiers may contain hyphens and underscores: a keyword directly followed by one of them is the beginning of a
+# detection name (e.g. "not-admin") and not the keyword.
+identifier_chars = alphanums + "_-"
+quantifier = (
+    Keyword("1", ident_chars=identifier_chars)
+    | Keyword("any", ident_chars=identifier_chars)
+    | Keyword("all", ident_chars=identifier_chars)
+)
 identifier_pattern = Word(alphanums + "*_")
-selector = quantifier + Keyword("of") + identifier_pattern
+selector = quantifier + Keyword("of", ident_chars=identifier_chars) + identifier_pattern
 selector.set_parse_action(ConditionSelector.from_parsed)
 
 operand = selector | identifier
 condition = infix_notation(
     operand,
     [
-        (Keyword("not"), 1, opAssoc.RIGHT, ConditionNOT.from_parsed),
-        (Keyword("and"), 2, opAssoc.LEFT, ConditionAND.from_parsed),
-        (Keyword("or"), 2, opAssoc.LEFT, ConditionOR.from_parsed),
+        (Keyword("not", ident_chars=identifier_chars), 1, opAssoc.RIGHT, ConditionNOT.from_parsed),
+        (Keyword("and", ident_chars=identifier_chars), 2, opAssoc.LEFT, ConditionAND.from_parsed),
+        (Keyword("or", ident_chars=identifier_chars), 2, opAssoc.LEFT, ConditionOR.from_parsed),
     ],
 )
 
